@@ -47,10 +47,12 @@ CHECKS["C15"] = ("proof",
     "be an instance). safe_b and reduce_acyclic_b are evaluated by the kernel on the real table of every generated "
     "grammar; the real LRParser (default lexer and two custom lexers that ignore the expected set, each compared with "
     "its Gallina mirror under run_lex) and the real GlrParser are run on rendered and garbage UTF-8 strings under "
-    "catch_unwind and a watchdog and must return Ok or Err; LR outcomes also equal the byte-level model's. Partial: "
-    "termination is not proved (reduce_acyclic_b is a sufficient per-table condition; hangs are observed by the watchdog; "
-    "the known reduction-cycle hang is a recorded finding); byte-slicing safety is decided by real runs and "
-    "correspondence; stack/memory exhaustion cannot be exhibited by the model.",
+    "catch_unwind and a watchdog and must return Ok or Err; LR outcomes also equal the byte-level model's. Termination: "
+    "lr_terminates / lr_total (token level, full parsing, default lexer): every table passing reduce_acyclic_b finishes "
+    "within (4+|w|)*(4+2*states) turns with Ok or an error; tables failing it are exactly the recorded reduction-cycle "
+    "finding. Partial: termination with partial parsing, custom lexers and for GLR is only observed by the watchdog; "
+    "byte-slicing safety is decided by real runs and correspondence; stack/memory exhaustion cannot be exhibited by "
+    "the model.",
     "machine-checked proof in Coq (panic-freedom theorem over validated tables, any lexer) + kernel-evaluated validators "
     "on real tables + real-runtime exploration under catch_unwind/watchdog", "DESIGN.md §6 C15")
 
